@@ -144,8 +144,10 @@ class C16Phh(Monitor):
     def _replay(self, sess, s, hh, game):
         from pokerkit import HandHistory
         kw = sess.kw
-        plain = (kw['starting_board_count'] == 1 and sess.extra.get('divchunk', 1) <= 1
-                 and tuple(sess.extra.get('rake_line', (0, 1, 'inf', 0)))[0] in (0, '0')
+        # what the format carries: one board, no explicit run-out counts; chips additionally need the
+        # default divmod and no rake (neither is written to the file)
+        chips_plain = (sess.extra.get('divchunk', 1) <= 1 and tuple(sess.extra.get('rake_line', (0, 1, 'inf', 0)))[0] in (0, '0'))
+        plain = (kw['starting_board_count'] == 1
                  and not any(type(o).__name__ == 'RunoutCountSelection' and o.runout_count is not None for o in s.operations))
         names = [type(o).__name__ for o in s.operations]
         first_deal = names.index('HoleDealing') if 'HoleDealing' in names else len(names)
@@ -208,7 +210,7 @@ class C16Phh(Monitor):
                 self.report('replay', 'hole_cards_differ', f'hole cards played {s.hole_cards}, replayed {final.hole_cards}')
             if [list(x) for x in s.board_cards] != [list(x) for x in final.board_cards]:
                 self.report('replay', 'board_differs', f'board played {s.board_cards}, replayed {final.board_cards}')
-            if list(s.stacks) != list(final.stacks) or list(s.payoffs) != list(final.payoffs) or final.status:
+            if chips_plain and (list(s.stacks) != list(final.stacks) or list(s.payoffs) != list(final.payoffs) or final.status):
                 self.report('replay', 'stacks_differ', f'final stacks played {list(s.stacks)} payoffs {list(s.payoffs)}, replayed '
                             f'{list(final.stacks)} payoffs {list(final.payoffs)} (status {final.status})')
             # a history that cannot be applied must be reported, not silently cut short
